@@ -75,7 +75,7 @@ def main(args):
             target_virtual_file.open_virtual_file()
             for number, file in enumerate(virtual_file.list_files()):
                 filename = file.name.strip().replace("\0", "")
-                if files_to_include is None or filename in files_to_include:
+                if files_to_include is None or filename.upper() in files_to_include:
                     print("-- File #{} [{}] --".format(number + 1, filename))
                     target_virtual_file.add_coco_file(file)
             target_virtual_file.save_virtual_file(append_mode=args.append)
@@ -89,7 +89,7 @@ def main(args):
             target_virtual_file.open_virtual_file()
             for number, file in enumerate(virtual_file.list_files()):
                 filename = file.name.strip().replace("\0", "")
-                if files_to_include is None or filename in files_to_include:
+                if files_to_include is None or filename.upper() in files_to_include:
                     print("-- File #{} [{}] --".format(number + 1, filename))
                     target_virtual_file.add_coco_file(file)
             target_virtual_file.save_virtual_file(append_mode=args.append)
@@ -108,7 +108,7 @@ def main(args):
 
             file = files[0]
             filename = file.name.strip().replace("\0", "")
-            if files_to_include is None or filename in files_to_include:
+            if files_to_include is None or filename.upper() in files_to_include:
                 print("-- File #1 [{}] --".format(filename))
                 target_virtual_file.add_coco_file(file)
             target_virtual_file.save_virtual_file(append_mode=args.append)
